@@ -11,11 +11,11 @@
                                              (`TYPE[]` applied repeatedly, `(TYPE)`) and both are read back
      table            table   table<K, V>    a fun type as K / V is parenthesised
      fun              fun(a: T, b?: T, c): R1, R2     a fun type as parameter / return type is parenthesised
-     string constant  "s"   '"s"'            (the second form sets QuotesFlag)
+     string constant  's'   '"s"'            (the second form sets QuotesFlag; "s" is read like 's')
      lists of types   T1, T2, T3             (type / return statements) a fun type is parenthesised unless last
      comment          <space>@text           kept verbatim
-   On the fragment without fun types and constants the canonical `show_bare true` prints exactly what
-   annotateast.TypeConvertStr prints (Proofs/AnnPrinter.v).
+   The canonical `show_bare true` prints exactly what the repaired annotateast.TypeConvertStr prints; the printer of
+   the code as it is differs on fun types only (Proofs/AnnPrinter.v).
    The implementation wraps every "one type" position in a MultiType and a parenthesised type is the MultiType
    of its content; `embed_*` says exactly where, `abs` forgets singleton MultiTypes again. *)
 From Coq Require Import String Ascii List NArith Bool.
@@ -126,7 +126,7 @@ Definition item_paren (nested : bool) (t : dtype) : bool := is_union t || is_fun
 Definition sub_paren (t : dtype) : bool := is_fun t.
 
 Definition show_const (s : bytes) (q : bool) : bytes :=
-  if q then [39; 34] ++ s ++ [34; 39] else [34] ++ s ++ [34].
+  if q then [39; 34] ++ s ++ [34; 39] else [39] ++ s ++ [39].
 
 Section Show.
   Variable nested : bool.
